@@ -644,6 +644,105 @@ fn pair_chars(st: &mut St, acc: &mut Acc, a: char, b: char) {
     }
 }
 
+/// Variadic forms: (p a b c) must be the conjunction of (p a b) and (p b c), for the twenty character and string
+/// comparison predicates (the pairwise answers are judged by `pair_chars`).
+fn triple_chars(st: &mut St, acc: &mut Acc, a: char, b: char, c: char) {
+    acc.evals += 1;
+    const PREDS: [&str; 20] = [
+        "char=?", "char<?", "char>?", "char<=?", "char>=?", "char-ci=?", "char-ci<?", "char-ci>?", "char-ci<=?", "char-ci>=?",
+        "string=?", "string<?", "string>?", "string<=?", "string>=?", "string-ci=?", "string-ci<?", "string-ci>?", "string-ci<=?", "string-ci>=?",
+    ];
+    let ch = [SS::chr(a), SS::chr(b), SS::chr(c)];
+    let st_ = [SS::lit(&[a, 'x']), SS::lit(&[b, 'x']), SS::lit(&[c, 'x'])];
+    let mut text = String::from("(list");
+    for (i, p) in PREDS.iter().enumerate() {
+        let x = if i < 10 { &ch } else { &st_ };
+        text.push_str(&format!(" ({0} {1} {2} {3}) ({0} {1} {2}) ({0} {2} {3})", p, x[0], x[1], x[2]));
+    }
+    text.push(')');
+    beat(&text);
+    let im = vm(st);
+    let key = format!("chars:U+{:04X},U+{:04X},U+{:04X}", a as u32, b as u32, c as u32);
+    let v = match eval_list(im, &text) {
+        Ok(v) if v.len() == 60 => v,
+        Ok(v) => {
+            acc.violation(Violation { key, class: Some("char-triple".into()), observed: "wrong-shape".into(), detail: json!({"session": [text], "observed": format!("{:?}", v)}) });
+            return;
+        }
+        Err(e) => {
+            acc.violation(Violation { key, class: Some("char-triple".into()), observed: if e.starts_with("panic") { "panic".into() } else { "error".into() }, detail: json!({"session": [text], "observed": e}) });
+            return;
+        }
+    };
+    let mut bad = vec![];
+    for (i, p) in PREDS.iter().enumerate() {
+        let (t, l, r) = (&v[3 * i], &v[3 * i + 1], &v[3 * i + 2]);
+        let want = *l == Cell::Bool(true) && *r == Cell::Bool(true);
+        if *t != Cell::Bool(want) {
+            let x = if i < 10 { &ch } else { &st_ };
+            bad.push(format!("({0} {1} {2} {3}) is {4:#} but ({0} {1} {2}) is {5:#} and ({0} {2} {3}) is {6:#}", p, x[0], x[1], x[2], t, l, r));
+        }
+    }
+    if bad.is_empty() {
+        acc.nontrivial += 1;
+    } else {
+        acc.violation(Violation { key, class: Some("variadic-comparison-is-the-conjunction-of-adjacent-pairs".into()), observed: "wrong-value".into(), detail: json!({"session": [text], "problems": bad}) });
+    }
+}
+
+/// Strings are vectors of scalar values whatever those values are: line ends, controls, quotes, combining marks and
+/// invisible characters are stored, counted, joined and copied like any other. `s` and `t` are joined and taken apart
+/// by every constructing procedure; every result must be exactly the model's sequence of characters.
+fn special_pair(st: &mut St, acc: &mut Acc, s: &[char], t: &[char]) {
+    acc.evals += 1;
+    let st_all: Vec<char> = s.iter().chain(t.iter()).cloned().collect();
+    let chars = |v: &[char]| v.iter().map(|c| SS::chr(*c)).collect::<Vec<_>>().join(" ");
+    let (bs, bt) = (format!("(string {})", chars(s)), format!("(string {})", chars(t)));
+    let text = format!(
+        "(let ((s {bs}) (t {bt})) (list (string-append s t) (string-length (string-append s t)) (string->list (string-append s t)) (string-copy (string-append s t)) (list->string (append (string->list s) (string->list t))) (vector->string (list->vector (append (string->list s) (string->list t)))) (string-append {ls} {lt}) (string=? (string-append s t) {lst}) (string-copy {lst}) (symbol->string (string->symbol (string-append s t))) (let ((u (make-string {n} #\\a))) {sets} u) (substring (string-append s t) 0 {n}) (string-length {lst}) (equal? (string-append s t) {lst})))",
+        bs = bs, bt = bt, ls = SS::lit(s), lt = SS::lit(t), lst = SS::lit(&st_all), n = st_all.len(),
+        sets = st_all.iter().enumerate().map(|(i, c)| format!("(string-set! u {} {})", i, SS::chr(*c))).collect::<Vec<_>>().join(" ")
+    );
+    beat(&text);
+    let im = vm(st);
+    let key = format!("special:{:?}+{:?}", s.iter().collect::<String>(), t.iter().collect::<String>());
+    let v = match eval_list(im, &text) {
+        Ok(v) if v.len() == 14 => v,
+        Ok(v) => {
+            acc.violation(Violation { key, class: Some("special-characters".into()), observed: "wrong-shape".into(), detail: json!({"session": [text], "observed": format!("{:?}", v)}) });
+            return;
+        }
+        Err(e) => {
+            acc.violation(Violation { key, class: Some("special-characters".into()), observed: if e.starts_with("panic") { "panic".into() } else { "error".into() }, detail: json!({"session": [text], "observed": e}) });
+            return;
+        }
+    };
+    let want_s = Cell::String(st_all.iter().collect());
+    let same_str = |c: &Cell| matches!((c, &want_s), (Cell::String(a), Cell::String(b)) if a == b);
+    let mut bad = vec![];
+    for i in [0usize, 3, 4, 5, 6, 8, 9, 10, 11] {
+        if !same_str(&v[i]) {
+            bad.push(format!("result {} is {:#}, expected {:#}", i, v[i], want_s));
+        }
+    }
+    let n = Cell::Number(marwood::number::Number::Fixnum(st_all.len() as i64));
+    if !crate::numx::identical(&v[1], &n) || !crate::numx::identical(&v[12], &n) {
+        bad.push(format!("string-length is {:#} / {:#}, expected {}", v[1], v[12], st_all.len()));
+    }
+    let got_list: Vec<Cell> = v[2].iter().cloned().collect();
+    if got_list.len() != st_all.len() || got_list.iter().zip(st_all.iter()).any(|(g, w)| *g != Cell::Char(*w)) {
+        bad.push(format!("string->list is {:#}", v[2]));
+    }
+    if v[7] != Cell::Bool(true) || v[13] != Cell::Bool(true) {
+        bad.push(format!("string=? / equal? with the literal are {:#} / {:#}", v[7], v[13]));
+    }
+    if bad.is_empty() {
+        acc.nontrivial += 1;
+    } else {
+        acc.violation(Violation { key, class: Some("special-characters".into()), observed: "wrong-value".into(), detail: json!({"session": [text], "problems": bad}) });
+    }
+}
+
 pub fn run(ctx: &Ctx) -> i32 {
     start_watchdog("C15", 120);
     let mut rep = Report::new("model_checking");
@@ -806,6 +905,37 @@ pub fn run(ctx: &Ctx) -> i32 {
         acc_zero,
     );
     acc = Acc::merge(acc, a3);
+    let sub: Vec<char> = "aAbBzZ0éÉäÄßẞΣςσKk\u{212A}ſsİı😀".chars().collect();
+    let nsub = sub.len() as u64;
+    let a4 = par_fold(
+        nsub * nsub * nsub,
+        64,
+        || St { im: None, used: 0 },
+        |st, acc, i| triple_chars(st, acc, sub[(i / nsub / nsub) as usize], sub[((i / nsub) % nsub) as usize], sub[(i % nsub) as usize]),
+        Acc::merge,
+        acc_zero,
+    );
+    acc = Acc::merge(acc, a4);
+    // every pair of strings of length <= 2 over characters that text tools like to normalise
+    let special: Vec<char> = vec!['\r', '\n', '\t', ' ', '\0', '\\', '"', 'a', 'e', '\u{301}', '\u{85}', '\u{2028}', '\u{FEFF}', '\u{200D}', 'é'];
+    let mut specials: Vec<Vec<char>> = vec![vec![]];
+    for a in &special {
+        specials.push(vec![*a]);
+        for b in &special {
+            specials.push(vec![*a, *b]);
+        }
+    }
+    let nsp = specials.len() as u64;
+    let specials_ref = &specials;
+    let a5 = par_fold(
+        nsp * nsp,
+        64,
+        || St { im: None, used: 0 },
+        |st, acc, i| special_pair(st, acc, &specials_ref[(i / nsp) as usize], &specials_ref[(i % nsp) as usize]),
+        Acc::merge,
+        acc_zero,
+    );
+    acc = Acc::merge(acc, a5);
     for s in seen.iter().take(3) {
         acc.sample(json!({"state": s.show()}));
     }
@@ -817,7 +947,7 @@ pub fn run(ctx: &Ctx) -> i32 {
     rep.extra("operation_instances_in_alphabet", json!(ops.len()));
     rep.extra("character_palette", json!(pal.len()));
     rep.rule = format!(
-        "BFS to depth {} over a model in which a string is a mutable vector of Unicode scalar values: two string slots (possibly the same object), a character slot and a result slot; strings of length <= 3 over 'a' 'é' '€' '😀' (1-4 bytes in UTF-8); {} operation instances: string-length, string-ref / string-set! with every index -1..4 and 2^62 and characters of every byte width, substring / string-copy / string->list with every start and end in -1..4, string-fill! with start / end, string->vector, vector->string, list->string, string (0-2 arguments), make-string, string-append (0-2 arguments), the five ordering predicates, string-upcase / -downcase, char->integer, integer->char over {{0, 7F, 80, 7FF, 800, D7FF, D800, DFFF, E000, FFFF, 10000, 10FFFF, 110000, 2^32, -1}}, aliasing moves. Each transition runs on the real VM; result or required error (invalid index, range with start > end or end > length, invalid scalar value), all string contents, and aliasing (a write through one slot seen through the other) are compared with the model. Pure procedures: char-upcase / -downcase / -foldcase, the five class predicates, char->integer / integer->char on every Unicode scalar value against the standard library's single-character mappings; the five char-ci and five string-ci predicates on all pairs of a {}-character palette of special-casing trouble spots against their R7RS defining equations ((char-ci=? a b) <=> (char=? (char-foldcase a) (char-foldcase b)) etc.). Non-trivial = a transition / character / pair on which every comparison agreed.",
+        "BFS to depth {} over a model in which a string is a mutable vector of Unicode scalar values: two string slots (possibly the same object), a character slot and a result slot; strings of length <= 3 over 'a' 'é' '€' '😀' (1-4 bytes in UTF-8); {} operation instances: string-length, string-ref / string-set! with every index -1..4 and 2^62 and characters of every byte width, substring / string-copy / string->list with every start and end in -1..4, string-fill! with start / end, string->vector, vector->string, list->string, string (0-2 arguments), make-string, string-append (0-2 arguments), the five ordering predicates, string-upcase / -downcase, char->integer, integer->char over {{0, 7F, 80, 7FF, 800, D7FF, D800, DFFF, E000, FFFF, 10000, 10FFFF, 110000, 2^32, -1}}, aliasing moves. Each transition runs on the real VM; result or required error (invalid index, range with start > end or end > length, invalid scalar value), all string contents, and aliasing (a write through one slot seen through the other) are compared with the model. Pure procedures: char-upcase / -downcase / -foldcase, the five class predicates, char->integer / integer->char on every Unicode scalar value against the standard library's single-character mappings; the five char-ci and five string-ci predicates on all pairs of a {}-character palette of special-casing trouble spots against their R7RS defining equations ((char-ci=? a b) <=> (char=? (char-foldcase a) (char-foldcase b)) etc.); the twenty character and string comparison predicates with three arguments on every triple of a 24-character sub-palette against the conjunction of their answers on the two adjacent pairs; every ordered pair of strings of length <= 2 over 15 characters that text tools like to normalise (CR, LF, TAB, space, NUL, backslash, double quote, a combining accent after e, NEL, LS, BOM, ZWJ) joined and taken apart by string-append, string-copy, list->string, vector->string, string-set!, substring, symbol->string of string->symbol, and compared with the literal. Non-trivial = a transition / character / pair / triple on which every comparison agreed.",
         depth_done, ops.len(), pal.len()
     );
     rep.assumptions.push("the standard library exposes lower/upper mappings but no case-folding table: char-foldcase is compared with lower-casing only where the two coincide; characters whose full case mapping is not a single character are checked only for returning a character".into());
